@@ -106,3 +106,78 @@ def c18_lite_header_copy(ctx, v):
             seen += 1
         v.covers_total += 1
         v.covers_sat += 1 if seen else 0
+
+
+def c18_lite_block_keeps_listed(ctx, v):
+    """Block::generate_lite_block as a whole (projection, placeholder merging, header copy) on
+    blocks of 2..=3 transactions (thorough 4) with one input and one output each, every owner
+    key, type and signature symbolic, key list of one symbolic key: every transaction that pays
+    to or spends from the listed key, and every golden ticket, is present in the lite block in
+    full — same signature, same type, same slips — at some position; merging only ever combines
+    placeholders."""
+    body = ctx.body(r"block::<impl at [^>]*>::generate_lite_block$")
+    sizes = (2, 3) if ctx.tier == "quick" else (2, 3, 4)
+    for n in sizes:
+        ex = ctx.executor(loop_bound=2 * n + 4, inline="auto", max_paths=6000, no_inline=[r"PrintForLog", r"hex::", r"generate_merkle_root$", r"fmt"])
+        ex.pure = [r".*"]
+        key = ex.fresh_value("[u8; 33]", "listed_key")
+        txs, touches = [], []
+        pre = []
+        for i in range(n):
+            fin = L.sym_slip(ctx, ex, "tx%d.in" % i)
+            fout = L.sym_slip(ctx, ex, "tx%d.out" % i)
+            sig = ex.fresh_value("[u8; 64]", "tx%d.sig" % i)
+            tt = ex.fresh_value("TransactionType", "tx%d.type" % i)
+            h = ex.fresh_value("[u8; 32]", "tx%d.hash" % i)
+            hfs = S.EnumV("Option<[u8; 32]>", "Some", None, {"Some": S.Agg("variant", "Some", [h])})
+            tx = ctx.mk_struct(ex, "Transaction", "tx%d" % i, **{"from": S.Seq([fin], "Slip"), "to": S.Seq([fout], "Slip"), "signature": sig, "transaction_type": tt,
+                                                               "hash_for_signature": hfs, "txs_replacements": S.const_int(1, "u32")})
+            txs.append((tx, sig, tt, fin, fout))
+            pre += [L.enum_in_range(tt, L.TX_TYPES), z3.Not(L.enum_is(ctx, tt, "TransactionType", "SPV"))]
+            touches.append(z3.Or(value_eq(ex, L.slip_field(ctx, fin, "public_key"), key), value_eq(ex, L.slip_field(ctx, fout, "public_key"), key), L.enum_is(ctx, tt, "TransactionType", "GoldenTicket")))
+        # distinct signatures identify transactions
+        pre += [z3.Not(value_eq(ex, txs[i][1], txs[j][1])) for i in range(n) for j in range(i)]
+        block = ctx.mk_struct(ex, "Block", "full", transactions=S.Seq([t[0] for t in txs], "Transaction"))
+        st = S.State()
+        st.pc.extend(pre)
+        outs = ex.run(body, [S.Ref(S.Cell(block)), S.Seq([key])], st)
+        v.paths += len(outs)
+        seen = 0
+        for o in outs:
+            if o.kind in ("unsupported", "unwound", "path-limit"):
+                return v.undecided("n=%d %s %s" % (n, o.kind, o.info))
+            if o.kind == "panic":
+                v.queries += 1
+                if ex.feasible(o.pc):
+                    v.fail("n=%d: generate_lite_block panics: %s" % (n, o.info))
+                continue
+            if o.kind != "return":
+                continue
+            lite = o.value
+            ltx = lite.fields[ctx.field_index("Block", "transactions")]
+            if not isinstance(ltx, S.Seq):
+                return v.undecided("lite block transactions are not a concrete-length sequence")
+            for i, (tx, sig, tt, fin, fout) in enumerate(txs):
+                present = []
+                for t in ltx.items:
+                    t = ex.deref_value(t) if isinstance(t, (S.Ref,)) else t
+                    g = lambda f: t.fields[ctx.field_index("Transaction", f)]
+                    same_sig = value_eq(ex, g("signature"), sig)
+                    tfrom, tto = g("from"), g("to")
+                    full = isinstance(tfrom, S.Seq) and isinstance(tto, S.Seq) and len(tfrom.items) == 1 and len(tto.items) == 1
+                    if not full:
+                        continue
+                    ttype = g("transaction_type")
+                    same_type = value_eq(ex, ttype, tt)
+                    same_slips = z3.And(value_eq(ex, L.slip_field(ctx, tfrom.items[0], "public_key"), L.slip_field(ctx, fin, "public_key")),
+                                        value_eq(ex, L.slip_field(ctx, tto.items[0], "public_key"), L.slip_field(ctx, fout, "public_key")),
+                                        L.slip_field(ctx, tto.items[0], "amount").bv == L.slip_field(ctx, fout, "amount").bv)
+                    present.append(z3.And(same_sig, same_type, same_slips))
+                kept = z3.Or(*present) if present else z3.BoolVal(False)
+                r, m = ex.model_for(o.pc, z3.And(touches[i], z3.Not(kept)))
+                v.queries += 1
+                if r == z3.sat:
+                    v.fail("n=%d: transaction %d pays to / spends from the listed key (or is a golden ticket) but is not present in full in the lite block (%d entries)" % (n, i, len(ltx.items)))
+            seen += 1
+        v.covers_total += 1
+        v.covers_sat += 1 if seen else 0
